@@ -3,6 +3,7 @@ import Mouette.Lemmas.CutSourceBridge3
 import Mouette.Lemmas.DualBridge
 import Mouette.Lemmas.CuttingForest
 import Mouette.Lemmas.SpanBridge
+import Mouette.Lemmas.SpanFBridge
 import Mathlib.Data.List.Perm.Basic
 import Mathlib.Data.List.Nodup
 import Mathlib.Tactic.NormNum
@@ -756,6 +757,32 @@ example : C16P.candKeys [3, 5] true 9 = [(3, 3), (3, 5), (9, 3), (5, 5), (9, 5)]
   decide +kernel
 
 end span
+
+/-! ## round 9: `_build_singularity_spanning_tree_with_features`, through the same statement-by-statement site -/
+
+section spanf
+open Mouette.SpanSrc
+
+/-- THE FEATURE FOREST: run the breadth-first traversal of the feature graph as written, from any roots (border vertices that are
+feature vertices, then the feature vertices closest to the singularities), for any number of iterations. Every pair `(c, p)` whose
+edge the traversal flags is a feature adjacency (`c` is reached from `p` through a feature edge), `p` was marked visited strictly
+BEFORE `c`, no vertex is visited twice and no vertex is the child of two flagged pairs: the flagged feature edges form a forest
+rooted at the roots (in particular two border vertices are never linked through interior feature edges). -/
+theorem spanning_forest_with_features_source (featNbrs : Nat → List Nat) (borderFeat closest : List Nat) (fuel : Nat) :
+    let s := C16F.bfsWhile featNbrs fuel (C16F.bfsInit borderFeat closest)
+    s.visited.Nodup ∧ (s.flags.map Prod.fst).Nodup ∧
+    (∀ c p, (c, p) ∈ s.flags → c ∈ featNbrs p ∧ ∃ pre post, s.visited = pre ++ c :: post ∧ p ∈ pre) ∧
+    (∀ x p, (x, some p) ∈ s.queue → p ∈ s.visited ∧ x ∈ featNbrs p) := by
+  intro s
+  have I := binv_while (featNbrs := featNbrs) fuel _ (binv_init featNbrs borderFeat closest)
+  exact ⟨I.nodup, I.child, I.flags, I.queue⟩
+
+/-- a feature path 0-1-2-3 whose ends 0 and 3 are border vertices (both roots): the traversal flags (1,0) and (2,3) only: the two
+border vertices are NOT linked through the interior feature edges (the round-1 repair) -/
+example : (C16F.bfsWhile (fun v => if v = 0 then [1] else if v = 1 then [0, 2] else if v = 2 then [1, 3] else if v = 3 then [2] else [])
+    20 (C16F.bfsInit [0, 3] [])).flags = [(1, 0), (2, 3)] := by decide +kernel
+
+end spanf
 
 /-! ## non-vacuity: the extracted definitions, run -/
 
